@@ -147,6 +147,19 @@ func knownScenarios() []scenario {
 			watch:   true,
 			comment: "the target of a symlink is obtained by Entry.Symlink (lstat + EvalSymlinks) which leaves no watch record; the directory entry stays present and the old target stays unchanged",
 		},
+		{
+			name: "watch-dangling-symlink-target-created",
+			what: "known-G-watch-misses-symlink-retarget",
+			files: map[string]string{
+				"src/a.js": "import \"./link\";\n",
+				"src/y.js": "console.log(\"y\");\n",
+			},
+			links:   map[string]string{"src/link.js": "x.js"},
+			opts:    base("src/a.js"),
+			edit:    map[string]string{"src/x.js": "console.log(\"x\");\n"},
+			watch:   true,
+			comment: "same root cause as the re-pointed symlink: realFS.kind resolves the link with lstat/EvalSymlinks and records nothing, so the appearance of the missing target of a dangling symlink is not watched (the directory entry link.js was and stays present; x.js itself was never looked up)",
+		},
 	}
 }
 
